@@ -168,18 +168,27 @@ func (r *run) observe(d *delivery) {
 	}
 	if d.neighbour {
 		r.res.Steps++
-		r.res.Count("fault.neighbour-hand-started", 1)
-		if d.pan != "" {
-			r.res.Fault = "neighbour hand panicked: " + d.pan
-			r.dead = true
-			return
+		sig, what := "another-hand-in-the-process-changed-this-hand", "playing another hand in the same process"
+		if d.query {
+			r.res.Count("fault.read-only-query", 1)
+			sig, what = "read-only-query-changed-this-hand", "asking the live game object a read-only question ("+d.st.String()+")"
+			if d.pan != "" {
+				r.probe("read-only-query-panicked")
+			}
+		} else {
+			r.res.Count("fault.neighbour-hand-started", 1)
+			if d.pan != "" {
+				r.res.Fault = "neighbour hand panicked: " + d.pan
+				r.dead = true
+				return
+			}
 		}
 		if string(d.preJSON) != string(d.postJSON) {
 			diff := firstDiff(d.postJSON, d.preJSON)
-			r.viol("C07", "another-hand-in-the-process-changed-this-hand", "playing another hand changed this hand: "+diff, i)
+			r.viol("C07", sig, what+" changed this hand: "+diff, i)
 			for prop, f := range isolationViews {
 				if f(d.pre) != f(d.post) {
-					r.viol(prop, "another-hand-in-the-process-changed-this-hand", "playing another hand in the same process changed what this property speaks about: "+f(d.pre)+" -> "+f(d.post), i)
+					r.viol(prop, sig, what+" changed what this property speaks about: "+f(d.pre)+" -> "+f(d.post), i)
 				}
 			}
 		}
